@@ -4,10 +4,10 @@ From Coq Require Import List Bool.
 Require Import GV.Gen.LifecycleRules.
 Import ListNotations.
 
-Inductive pc := PIdle | PLoc (for_connect : bool) | PConn (k : nat) | PDead.
+Inductive pc := PIdle | PLoc (for_connect : bool) | PConn (k : nat) | PDead | PNotFound (* asleep in the not-found retry clause *).
 Definition pc_eqb (a b : pc) : bool :=
   match a, b with
-  | PIdle, PIdle | PDead, PDead => true
+  | PIdle, PIdle | PDead, PDead | PNotFound, PNotFound => true
   | PLoc x, PLoc y => Bool.eqb x y
   | PConn x, PConn y => Nat.eqb x y
   | _, _ => false end.
@@ -115,7 +115,8 @@ Inductive label :=
 | ConnOutcome (o : conn_outcome)         (* next step of GeckoAsyncSpa._connect *)
 | Ext (e : event)                        (* an event raised by one of the connection's own tasks *)
 | UserReset
-| SetSpaInfo.
+| SetSpaInfo
+| NotFoundWake.                          (* the pump's sleep in the not-found clause is over *)
 
 Definition handshake_events : list event :=
   [CONNECTION_GOT_FIRMWARE_VERSION; CONNECTION_GOT_CHANNEL; CONNECTION_GOT_CONFIG_FILES; CONNECTION_INITIAL_DATA_BLOCK_REQUEST; CONNECTION_SPA_COMPLETE].
@@ -123,9 +124,13 @@ Definition ext_events : list event :=
   [RUNNING_PING_RECEIVED; RUNNING_PING_MISSED; RUNNING_PING_NO_RESPONSE; ERROR_RF_ERROR; ERROR_TOO_MANY_RF_ERRORS;
    ERROR_PROTOCOL_RETRY_COUNT_EXCEEDED; RUNNING_SPA_PACK_REFRESHED; RUNNING_SPA_WATER_CARE_ERROR].
 
+(* an exception reaches the pump's loop: caught, logged, async_reset (pump_survives) - or the end of the task *)
+Definition raised (s : mst) : mst * list delivery :=
+  if pump_survives then let '(s1, d) := reset FUEL s in (upd_pc s1 PIdle, d) else (upd_pc s PDead, []).
 (* CONNECTION_FINISHED in the finally of async_connect_to_spa *)
 Definition finish_connect (s : mst) (dead : bool) : mst * list delivery :=
-  let '(s1, d) := handle FUEL s CONNECTION_FINISHED in (upd_pc s1 (if dead then PDead else PIdle), d).
+  let '(s1, d) := handle FUEL s CONNECTION_FINISHED in
+  if dead then let '(s2, d2) := raised s1 in (s2, d ++ d2) else (upd_pc s1 PIdle, d).
 
 Definition step (s : mst) (l : label) : option (mst * list delivery) :=
   match l with
@@ -136,6 +141,7 @@ Definition step (s : mst) (l : label) : option (mst * list delivery) :=
             let '(s1, d) := handle FUEL s LOCATING_STARTED in Some (upd_pc s1 (PLoc false), d)
           else if sstate_eqb (st s) LOCATED_SPAS && has_id s && negb (fac s) then
             let '(s1, d) := handle FUEL s LOCATING_STARTED in Some (upd_pc s1 (PLoc true), d)
+          else if pump_retries_not_found && sstate_eqb (st s) ERROR_SPA_NOT_FOUND then Some (upd_pc s PNotFound, [])
           else Some (s, [])
       | _ => None
       end
@@ -144,10 +150,10 @@ Definition step (s : mst) (l : label) : option (mst * list delivery) :=
       | PLoc fc =>
           let s0 := if raises then s else upd_objs s (fac s) (spa s) true in       (* self._spa_descriptors = locator.spas *)
           let '(s1, d1) := handle FUEL s0 LOCATING_FINISHED in                       (* finally *)
-          if raises then Some (upd_pc s1 PDead, d1)
+          if raises then let '(s2, d2) := raised s1 in Some (s2, d1 ++ d2)
           else if fc then
             if found then
-              if fac s1 then Some (upd_pc s1 PDead, d1)                              (* assert self._facade is None *)
+              if fac s1 then let '(s2, d2) := raised s1 in Some (s2, d1 ++ d2)       (* assert self._facade is None *)
               else let '(s2, d2) := handle FUEL s1 CONNECTION_STARTED in
                    Some (upd_pc (upd_objs s2 (fac s2) true (desc s2)) (PConn 0), d1 ++ d2)
             else let '(s2, d2) := handle FUEL s1 SPA_NOT_FOUND in Some (upd_pc s2 PIdle, d1 ++ d2)
@@ -191,6 +197,11 @@ Definition step (s : mst) (l : label) : option (mst * list delivery) :=
       then Some (handle FUEL s e) else None
   | UserReset => Some (reset FUEL s)
   | SetSpaInfo => Some (reset FUEL (upd_id s true))
+  | NotFoundWake =>
+      match ppc s with
+      | PNotFound => if sstate_eqb (st s) ERROR_SPA_NOT_FOUND then let '(s1, d) := reset FUEL s in Some (upd_pc s1 PIdle, d) else Some (upd_pc s PIdle, [])
+      | _ => None
+      end
   end.
 
 Definition init (configured : bool) : mst :=
@@ -201,7 +212,7 @@ Definition entered (configured : bool) : mst := fst (handle FUEL (init configure
 Definition all_labels : list label :=
   [Pump; LocOutcome true false; LocOutcome false false; LocOutcome false true;
    ConnOutcome CNext; ConnOutcome CRetryExceeded; ConnOutcome (CCannotFind 0); ConnOutcome (CCannotFind 1); ConnOutcome (CCannotFind 2); ConnOutcome CRaise;
-   UserReset; SetSpaInfo] ++ map Ext ext_events.
+   UserReset; SetSpaInfo; NotFoundWake] ++ map Ext ext_events.
 
 Definition oss_eqb (a b : option sstate) : bool := match a, b with Some x, Some y => sstate_eqb x y | None, None => true | _, _ => false end.
 Definition mst_eqb (a b : mst) : bool :=
